@@ -129,20 +129,29 @@ fn spawn() -> Proc {
 
 /// one call in the child process; the child is replaced when it died or hung
 fn call(p: &mut Proc, doc: &str, expr: &str) -> J {
+    let r = call_limit(p, doc, expr, LIMIT);
+    if r["o"] == "timeout" {
+        // a starved machine is not a hang: once more, alone in a fresh child, with four times the limit
+        return call_limit(p, doc, expr, LIMIT * 4);
+    }
+    r
+}
+
+fn call_limit(p: &mut Proc, doc: &str, expr: &str, limit: Duration) -> J {
     let req = json!({"doc": doc, "expr": expr}).to_string();
     let t0 = Instant::now();
     let sent = {
         let stdin = p.child.stdin.as_mut().unwrap();
         writeln!(stdin, "{}", req).and_then(|_| stdin.flush())
     };
-    let res = if sent.is_err() { Err(RecvTimeoutError::Disconnected) } else { p.rx.recv_timeout(LIMIT) };
+    let res = if sent.is_err() { Err(RecvTimeoutError::Disconnected) } else { p.rx.recv_timeout(limit) };
     match res {
         Ok(line) => serde_json::from_str(&line).unwrap_or(json!({"o": "abort", "detail": "garbled answer"})),
         Err(RecvTimeoutError::Timeout) => {
             let _ = p.child.kill();
             let _ = p.child.wait();
             *p = spawn();
-            json!({"o": "timeout", "empty": false, "detail": "no answer within 15 s", "ms": t0.elapsed().as_millis() as u64})
+            json!({"o": "timeout", "empty": false, "detail": format!("no answer within {} s", limit.as_secs()), "ms": t0.elapsed().as_millis() as u64})
         }
         Err(RecvTimeoutError::Disconnected) => {
             let status = p.child.wait().ok();
